@@ -137,7 +137,7 @@ func (s fnSig) hasRef() bool {
 var pairInner = []string{
 	"@", "a", "b", "n", "s", "arr", "nums", "mix", "obj", "one", "empty", "missing", "nul", "a.b", "obj.k", "one.k", "missing.x", "nul.x", "arr[0]", "arr[-1]", "arr[5]", "nums[1]", "mix[2]",
 	"arr[0].a", "arr[1:]", "nums[::-1]", "nums[:2]", "mix[1::2]", "empty[0:1]", "s[0:1]", "arr[*]", "arr[*].a", "mix[*].a", "nums[*]", "arr[]", "nest[]", "nest[][]", "mix[]", "arr[?a]", "arr[?a == `1`]",
-	"mix[?a]", "mix[?@]", "mix[?a == `null`]", "nums[?@ > `1`]", "mix[].type(@)", "nest[].type(@)", "mix[].abs(@)", "mix[*].type(@)", "@ || `{\"a\":{\"b\":1}}`", "nul || `{\"a\":1,\"k\":2}`", "missing || `[{\"a\":1},2]`", "!@ && `[1,2]`", "merge(`{}`, obj)", "merge(`{}`, one, obj)",
+	"mix[?a]", "mix[?@]", "mix[?a == `null`]", "nums[?@ > `1`]", "arr[:].a", "arr[::].a", "mix[:]", "arr[:] | [0]", "nums[ : ]", "arr[0:].a", "mix[].type(@)", "nest[].type(@)", "mix[].abs(@)", "mix[*].type(@)", "@ || `{\"a\":{\"b\":1}}`", "nul || `{\"a\":1,\"k\":2}`", "missing || `[{\"a\":1},2]`", "!@ && `[1,2]`", "merge(`{}`, obj)", "merge(`{}`, one, obj)",
 	"mix[?type(@) == 'object'].a", "mix[?type(@) == 'string'].length(@)", "mix[?type(@) == 'number'].abs(@)", "mix[?type(a) == 'number'].abs(a)", "mix[?abs(@) > `0`]", "mix[?type(@) == 'array'][0].a",
 	"arr[?type(a) == 'number'].abs(a)", "mix[?type(@) != 'null'].type(@)", "sort_by(arr, &a)[-1]", "sort_by(arr, &a)[0]", "sort_by(arr, &a)[*].n", "max_by(arr, &a).n", "min_by(arr, &a).n", "sort(nums)[-1]", "sort(nums)[0]",
 	"to_string(bs)", "to_string(obj2)", "reverse(arr)[0].n", "sort_by(arr, &n)[-1].a", "one.*", "one.*.k", "[a, b]", "[a, missing]", "[@]", "{x: a, y: missing}", "{x: @}", "a || b",
